@@ -305,7 +305,9 @@ func TestBatches(t *testing.T) {
 			s.Nontrivial(req)
 			s.Class("mixed-batch")
 		}
-		s.Sample(func() any { return map[string]any{"batch": kindsOf(items), "expected_present": expected, "wire": wire, "issuers": fmt.Sprintf("%d type-1, %d type-2", n1, n2)} })
+		s.Sample(func() any {
+			return map[string]any{"batch": kindsOf(items), "expected_present": expected, "wire": wire, "issuers": fmt.Sprintf("%d type-1, %d type-2", n1, n2)}
+		})
 	})
 }
 
@@ -315,4 +317,146 @@ func kindsOf(items []item) []string {
 		out[i] = it.kind
 	}
 	return out
+}
+
+// TestTruncatedIDCollisions: issuers of one type that share the truncated key id. The property stays
+// decidable for PRESENCE (an entry is present exactly when some configured issuer of that type and
+// truncated id evaluates the request); finalization is only asserted when the right-key issuer is
+// the only one that evaluates it (with two successful evaluators no implementation can know which
+// response the client can use).
+func TestTruncatedIDCollisions(t *testing.T) {
+	s := rt.S("truncated-id-collisions").SetRule("two type-2 issuers whose key ids end in the same byte (moduli 25% apart: the smaller one rejects about a quarter of the messages blinded for the larger) and two type-1 issuers with colliding ids (found by derivation), in drawn configuration order; batches of 1..6 requests for either key; model: present iff SOME matching issuer evaluates the request; finalization asserted when the right-key issuer is the only successful evaluator. non-trivial = batch containing a request that the first matching issuer rejects and a later one evaluates; distinct by batch bytes")
+	pair := gen.RSACollidingPair()
+	rt.Check(t, 60, 4000, func(t *rapid.T) {
+		defer rt.Entropy(gen.Seed().Draw(t, "entropy"))()
+		// type-1 colliding pair
+		seed := gen.Seed().Draw(t, "keyseed")
+		k1a := gen.OPRFKey(oprf.SuiteP384, append(append([]byte{}, seed...), 0))
+		var k1b *oprf.PrivateKey
+		for c := 1; ; c++ {
+			k1b = gen.OPRFKey(oprf.SuiteP384, append(append([]byte{}, seed...), byte(c), byte(c>>8)))
+			if last(gen.OPRFKeyID(k1b)) == last(gen.OPRFKeyID(k1a)) {
+				break
+			}
+		}
+		iss := []batched.Issuer{gen.Batch2{I: type2.NewBasicPublicIssuer(pair[0])}, gen.Batch2{I: type2.NewBasicPublicIssuer(pair[1])},
+			gen.Batch1{I: type1.NewBasicPrivateIssuer(k1a)}, gen.Batch1{I: type1.NewBasicPrivateIssuer(k1b)}}
+		order := rapid.Permutation([]int{0, 1, 2, 3}).Draw(t, "issuerOrder")
+		var all []batched.Issuer
+		for _, i := range order {
+			all = append(all, iss[i])
+		}
+		bi := batched.NewBasicBatchedIssuer(all...)
+		n := gen.UniformRange(t, 1, 6, "batchLen")
+		type it struct {
+			req   tokens.TokenRequestWithDetails
+			sess  *gen.Session
+			right batched.Issuer
+		}
+		var items []it
+		for i := 0; i < n; i++ {
+			switch gen.Uniform(t, 4, "which") {
+			case 0, 1: // request for the LARGER-modulus key (the smaller issuer may reject it)
+				sess, err := gen.NewSession(t, 2, gen.SessionOpts{RKeyIdx: 0})
+				_ = sess
+				_ = err
+				st, err := type2.NewBasicPublicClient().CreateTokenRequest(sess.Challenge, sess.Nonces[0], iss[1].TokenKeyID(), &pair[1].PublicKey)
+				if err != nil {
+					t.Fatalf("harness: %v", err)
+				}
+				s2 := &gen.Session{Type: 2, Challenge: sess.Challenge, Nonces: sess.Nonces, KeyID: iss[1].TokenKeyID(), RKey: pair[1], State2: st}
+				s2.Finalize = func(resp []byte) ([]tokens.Token, error) {
+					tk, err := st.FinalizeToken(resp)
+					return []tokens.Token{tk}, err
+				}
+				items = append(items, it{st.Request(), s2, iss[1]})
+			case 2:
+				sess, _ := gen.NewSession(t, 2, gen.SessionOpts{RKeyIdx: 0})
+				st, err := type2.NewBasicPublicClient().CreateTokenRequest(sess.Challenge, sess.Nonces[0], iss[0].TokenKeyID(), &pair[0].PublicKey)
+				if err != nil {
+					t.Fatalf("harness: %v", err)
+				}
+				s2 := &gen.Session{Type: 2, Challenge: sess.Challenge, Nonces: sess.Nonces, KeyID: iss[0].TokenKeyID(), RKey: pair[0], State2: st}
+				s2.Finalize = func(resp []byte) ([]tokens.Token, error) {
+					tk, err := st.FinalizeToken(resp)
+					return []tokens.Token{tk}, err
+				}
+				items = append(items, it{st.Request(), s2, iss[0]})
+			case 3:
+				key, right := k1a, iss[2]
+				if rapid.Bool().Draw(t, "k1b") {
+					key, right = k1b, iss[3]
+				}
+				sess, err := gen.NewSession(t, 1, gen.SessionOpts{OKey: key})
+				if err != nil {
+					t.Fatalf("harness: %v", err)
+				}
+				items = append(items, it{sess.State1.Request(), sess, right})
+			}
+		}
+		s.Eval()
+		reqs := make([]tokens.TokenRequestWithDetails, len(items))
+		var reqBytes []byte
+		for i, x := range items {
+			reqs[i] = x.req
+			reqBytes = append(reqBytes, x.req.Marshal()...)
+		}
+		br, err := batched.NewBasicClient().CreateTokenRequest(reqs)
+		if err != nil {
+			t.Fatalf("harness: %v", err)
+		}
+		respEnc, err := bi.EvaluateBatch(br)
+		if err != nil {
+			rt.Fail(t, "C05/collisions/evaluate", "EvaluateBatch: %v", err)
+			return
+		}
+		resps, err := batched.UnmarshalBatchedTokenResponses(respEnc)
+		if err != nil || len(resps) != len(items) {
+			rt.Fail(t, "C05/collisions/decode", "response list: %v, %d entries for %d requests", err, len(resps), len(items))
+			return
+		}
+		interesting := false
+		for i, x := range items {
+			var okIssuers []batched.Issuer
+			firstRejected := false
+			for k, is := range all {
+				if is.Type() != x.req.Type() || last(is.TokenKeyID()) != x.req.TruncatedTokenKeyID() {
+					continue
+				}
+				if _, err := is.Evaluate(x.req); err == nil {
+					okIssuers = append(okIssuers, is)
+				} else if len(okIssuers) == 0 {
+					firstRejected = true
+					_ = k
+				}
+			}
+			present := len(resps[i]) > 0
+			if present != (len(okIssuers) > 0) {
+				rt.Fail(t, "C05/collisions/presence", "entry %d present=%v although %d configured issuers of its type and truncated key id evaluate the request (first matching issuer rejected it: %v)", i, present, len(okIssuers), firstRejected)
+				return
+			}
+			if firstRejected && len(okIssuers) > 0 {
+				interesting = true
+				s.Class("first-matching-issuer-rejects")
+			}
+			if len(okIssuers) == 1 && bytes.Equal(okIssuers[0].TokenKeyID(), x.right.TokenKeyID()) {
+				toks, err := x.sess.Finalize(resps[i])
+				if err != nil {
+					rt.Fail(t, "C05/collisions/finalize", "entry %d was evaluated only by its own issuer but does not finalize: %v", i, err)
+					return
+				}
+				if err := x.sess.CheckTokens(toks); err != nil {
+					rt.Fail(t, "C05/collisions/token", "entry %d: %v", i, err)
+					return
+				}
+				s.Class("finalized")
+			} else if len(okIssuers) > 1 {
+				s.Class("ambiguous(two-successful-evaluators,finalization-not-asserted)")
+			}
+		}
+		if interesting {
+			s.Nontrivial(reqBytes)
+		}
+		s.Sample(func() any { return map[string]any{"batch_len": n, "issuer_order": order} })
+	})
 }
